@@ -100,6 +100,11 @@ package diam
 //@   ensures [C04] cursor: err == nil && !typeis(a.Data, *GroupedAVP) ==> avplen(a) == pad4s(a.Length)
 //@   ensures [C01 C04] payload: err == nil && !typeis(a.Data, *GroupedAVP) ==> forall i int :: 0 <= i && i < a.Length - hdrlen(a.Flags) ==> dbyte(a.Data, i) == data[hdrlen(a.Flags) + i]
 //@   ensures [C06] private: err == nil ==> !viewsInto(a.Data, data)
+//@   # C01 "read back with the same dictionary": at every nesting level an AVP is resolved under the application and the
+//@   # dictionary of the message it belongs to, by the code and vendor id found on the wire, and decoded as the type the
+//@   # dictionary gives for it
+//@   atcall FindAVPWithVendor: [C01] resolved_as_received: ARG0 == dictionary && ARG1 == application && typeis(ARG2, uint32) && ARG2.(uint32) == a.Code && ARG3 == a.VendorID
+//@   atcall DecodeGrouped: [C01] members_resolved_in_the_message_application: ARG1 == application && ARG2 == dictionary
 //@ end
 //@
 //@ func DecodeAVP(data, application, dictionary) (a, err)
@@ -115,6 +120,7 @@ package diam
 //@   ensures [C04] cursor: err == nil && !typeis(a.Data, *GroupedAVP) ==> avplen(a) == pad4s(a.Length)
 //@   ensures [C01 C04] payload: err == nil && !typeis(a.Data, *GroupedAVP) ==> forall i int :: 0 <= i && i < a.Length - hdrlen(a.Flags) ==> dbyte(a.Data, i) == data[hdrlen(a.Flags) + i]
 //@   ensures [C06] private: err == nil ==> !viewsInto(a.Data, data)
+//@   atcall DecodeFromBytes: [C01] same_application_and_dictionary: ARG2 == application && ARG3 == dictionary
 //@ end
 //@
 //@ # ======================= group.go ========================================
@@ -129,6 +135,7 @@ package diam
 //@     invariant [C04] count: len(g.AVP) == framecount(b, n)
 //@     invariant g_fresh: g != nil && fresh(g) && sameslice(b, data)
 //@   end
+//@   atcall DecodeAVP: [C01] members_resolved_in_the_message_application: ARG1 == application && ARG2 == dictionary
 //@ end
 //@
 //@ func (*GroupedAVP).Padding(g) (r)
@@ -152,6 +159,7 @@ package diam
 //@     invariant [C04] at_boundary: 0 <= n && n & 3 == 0 && boundary(b, n) && n <= pad4s(len(b))
 //@     invariant [C04] count: len(m.AVP) == len(old(m.AVP)) + framecount(b, n)
 //@   end
+//@   atcall DecodeAVP: [C01] resolved_in_the_message_application: ARG1 == m.Header.ApplicationID && ARG2 == (m.dictionary != nil ? m.dictionary : dict.Default)
 //@ end
 //@
 //@ func (*Message).Dictionary(m) (d)
